@@ -117,8 +117,11 @@ def run(ctx):
                 if nb <= 3:
                     rp = C.write_replay(prop, {"kind": "engine key differs from the model key (a component is hashed differently or not at all)",
                                                "fen": allf[i], "engine_key": keys[i], "model_key": mk,
-                                               "replay_cmd": "printf '%s\\n' | %s verif fen" % (allf[i], C.ENGINE)})
-                    violations.append({"replay": rp})
+                                               "replay_cmd": "printf '%s\\n' | %s verif fen" % (allf[i], C.ENGINE),
+                                               "broken": "correspondence engine key = model key (XOR over the atoms present, model/Atoms.v; C05_small_diff is about "
+                                                         "that function); whether two different positions share a key is judged on the engine's own keys by the "
+                                                         "perturbation sweep and the collision search of this check"})
+                    violations.append({"replay": rp, "no_input": True})
     # exploration (supports, is not an obligation): distinct identities vs distinct keys
     ident = {}
     coll = 0
